@@ -100,27 +100,20 @@ from vgi_rpc.utils import IpcValidation, ValidatedReader, new_ipc_stream
 # ---------------------------------------------------------------------------
 
 
-_ACCESS_LOG_ERROR_MESSAGE_LIMIT = 500
-"""Cap for ``error_message`` fields surfaced via the access log.
-
-Long exception messages (typically with embedded tracebacks or repeated
-context) bloat each JSONL record without adding signal — the full traceback
-is logged separately by ``_log_method_error``.  The cap matches the
-historical inline truncation used at every dispatch site.
-"""
-
-
-def _truncate_error_message(exc: BaseException | None, limit: int = _ACCESS_LOG_ERROR_MESSAGE_LIMIT) -> str:
+def _truncate_error_message(exc: BaseException | None, limit: int | None = None) -> str:
     """Render an exception's message for the access-log ``error_message`` field.
 
-    Returns ``""`` for ``None`` (the no-error case).  Otherwise returns
-    ``str(exc)`` truncated to ``limit`` characters.  Centralises the
-    historically duplicated ``str(exc)[:500]`` pattern across the unary
-    and stream dispatch shells so the truncation policy is one knob.
+    Returns ``""`` for ``None`` (the no-error case).  Otherwise returns the
+    full ``str(exc)``: the access-log spec forbids a length cap on
+    ``error_message`` ("No length cap. The full server-side message is
+    reported"), and the formatter's record-size cap already preserves the
+    field.  ``limit`` is kept for callers that want a shorter rendering for
+    their own purposes; the dispatch shells do not pass it.
     """
     if exc is None:
         return ""
-    return str(exc)[:limit]
+    text = str(exc)
+    return text if limit is None else text[:limit]
 
 
 def _log_method_error(protocol_name: str, method_name: str, server_id: str, exc: BaseException) -> str:
@@ -264,6 +257,11 @@ def _emit_access_log(
         }
         if cancelled:
             extra["cancelled"] = True
+        if status == "error" and not error_message:
+            # An exception raised without text (``raise ValueError()``) still
+            # failed the call: the schema requires a non-empty error_message
+            # on every status=error record, so fall back to the type name.
+            error_message = error_type or "error"
         if error_message:
             extra["error_message"] = error_message
         if server_version:
